@@ -77,6 +77,11 @@ def ordering(E, x, y):
 
 
 def dispatch(E, c, args):
+    mb = re.match(r"^<&?(u8|u16|u32|u64|u128|usize) as (?:std::ops::|core::ops::)?(BitAnd|BitOr|BitXor)<&?(?:u8|u16|u32|u64|u128|usize)>>::(bitand|bitor|bitxor)$", c)
+    if mb and len(args) == 2:
+        a_, b_ = deref(E, args[0]), deref(E, args[1])
+        if isinstance(a_, VInt) and isinstance(b_, VInt):
+            return E.binop(mb.group(2), a_, b_)
     tc = parse_trait_call(c)
     # ------------------------------------------------------------ Try / FromResidual
     if tc and tc[1] == "Try" and tc[2] == "branch":
